@@ -35,7 +35,9 @@ def generate(seed, scratch):
         finally:
             W.cleanup(top)
     return {"property": PID, "seed": seed, "world": world, "cfg": cfg,
-            "schedule": {"fault_free": fault_free, "cli": True, "evict": "all" if rs.random() < 0.2 else None},
+            "schedule": {"fault_free": fault_free, "cli": True, "evict": "all" if rs.random() < 0.2 else None,
+                         # terminal verbosity must not change what is counted or logged
+                         "cli_flags": rs.choice([[], [], ["-q"], ["-v"], ["-v", "-v"], ["-q", "-q"]])},
             "repairs": repairs}
 
 
@@ -213,7 +215,7 @@ def execute(case, scratch):
         if sched.get("cli"):
             root = os.path.join(top, world["root"])
             cres = runners.run_fresh("cli_run", {"top": top, "cwd": root, "module": "codebasin",
-                                                 "argv": ["-R", "summary", os.path.join(top, W.analysis_path(world))],
+                                                 "argv": list(sched.get("cli_flags") or []) + ["-R", "summary", os.path.join(top, W.analysis_path(world))],
                                                  "keep": ["cbi.log"]})
             stats["cli_runs"] = 1
             if cres["rc"] != 0:
